@@ -22,6 +22,8 @@ MUTANTS = [
     ('encoder::SourceMapIndex::as_raw_sourcemap', r'url: verif_opt_str_to_owned\(section\.get_url\(\)\),', 'url: None,'),
     ('hermes::SourceMapHermes::as_raw_sourcemap', r'verif_clone_from_fb\(&mut rsm\.x_facebook_sources, &self\.raw_facebook_sources\);', ''),
     ('types::NameIter::next', r'self\.next_idx \+= 1', 'self.next_idx += 2'),
+    ('types::SourceContentsIter::next', r'self\.next_idx >= self\.i\.get_source_count\(\)', 'self.next_idx + 1 >= self.i.get_source_count()'),
+    ('types::SourceIter::next', r'self\.next_idx \+= 1', 'self.next_idx += 2'),
 ]
 
 
@@ -123,3 +125,14 @@ def build(u):
         u.count('R-trait-inherent')
         u.count('R-shim-call', f.rewrite(r'(?s)rsm\.x_facebook_sources\s*\.clone_from\(&self\.raw_facebook_sources\);', 'verif_clone_from_fb(&mut rsm.x_facebook_sources, &self.raw_facebook_sources);', expect=1))
     guarded(u, 'hermes::SourceMapHermes::as_raw_sourcemap', lambda: u.get_fn(H, 'as_raw_sourcemap', impl=r'Encodable for SourceMapHermes\b'), prep_h, wrap=lambda: ('impl SourceMapHermes {', '}'))
+
+    # the other two table iterators of a map (C13: the finished map reports its sources and contents)
+    emit_struct(u, T, 'SourceIter', keep_vis=True)
+    emit_struct(u, T, 'SourceContentsIter', keep_vis=True)
+    u.spec('source_iters.rs')
+    for g in ['get_source', 'get_source_count', 'get_source_contents']:
+        import_method(u, T, r'SourceMap\b', g, 'types::SourceMap::' + g, 'u6_root.ctr', 'u6_root')
+    emit_method(u, T, r'SourceMap\b', 'sources', 'types::SourceMap::sources')
+    emit_method(u, T, r'SourceMap\b', 'source_contents', 'types::SourceMap::source_contents')
+    emit_method(u, T, r"<'a> Iterator for SourceIter<'a>", 'next', 'types::SourceIter::next', prep=lambda f: inspect_to_if(f, u))
+    emit_method(u, T, r"<'a> Iterator for SourceContentsIter<'a>", 'next', 'types::SourceContentsIter::next')
